@@ -1,16 +1,37 @@
-"""C01 - Khovanov homology equals the cube-of-resolutions definition (structural clauses only)."""
-import e1_typestate, specs
+"""C01 - Khovanov homology equals the cube-of-resolutions definition (structural necessary conditions only)."""
+import e1_typestate, specs, e12_pairing, e8_formulas, e9_relations, e5_locks
 
 LEVEL = 'other'
-EXPLANATION = ('Necessary structural conditions only (the isomorphism itself is NOT decided): (E1) Tng and Cob keep their sorted '
-               'normal form on every path - Cob is a hash-map key of Lc<Cob,R>, so an unsorted Cob makes equal cobordisms distinct '
-               'keys and the cancellation in d - c a^-1 b silently fails.')
-TRUSTED = ['rustc MIR of the current tree', 'Vec order-preserving method table', 'values received from outside are normalised (induction)']
+EXPLANATION = ('Necessary structural conditions only - the isomorphism with the cube-of-resolutions homology is NOT decided. For every '
+               'path / every (h,t): (E1) Tng and Cob keep their sorted normal form (Cob is a hash-map key of the linear combinations '
+               'forming the differential: an unsorted Cob makes equal cobordisms distinct keys and cancellation in d - c a^-1 b '
+               'silently fails); (E13) the doubly stored adjacency (out_edges / in_edges) is mutated symmetrically; (E8) the two genus '
+               'recomputations agree with 2g = 2 - (chi1 + chi2 + b) + a, Euler number and degree formulas are the published ones, the '
+               'complex and the cycles use the same elimination formula d - c a^-1 b in that operand order; (E9) the relation tables '
+               '(neck cutting, XY = t, X^2 = hX + t, Y^2 = -hY + t, closed evaluations, zero/unit predicates, delooping dual basis) are '
+               'identities of the Frobenius algebra Z[h,t][X]/(X^2 - hX - t) - checked by exact polynomial arithmetic on tables read '
+               'from the MIR, which matters because nearly all tests run at h = t = 0; (E5) no lock re-acquisition / rayon re-entry '
+               'under the write guard of connect_edges.')
+TRUSTED = ['rustc MIR of the current tree', 'Vec order-preserving method table', 'values received from outside are normalised (induction)',
+           'Frobenius algebra and degrees as stated in the property anchor (Y = X - h, deg h = -2, deg t = -4)']
+
+
+def in_kh(b):
+    return b.defp.startswith('yui_kh::kh::internal::v2::tng_complex::')
 
 
 def run(ctx, rep):
     facts = ctx.facts()
     rep.rule('E1', e1_typestate.__doc__.strip().split('\n')[0])
+    rep.rule('E13', 'symmetric adjacency update')
+    rep.rule('E8', e8_formulas.__doc__.strip().split('\n')[0])
+    rep.rule('E9', e9_relations.__doc__.strip().split('\n')[0])
     e1_typestate.run_type(facts, rep, specs.TNG, 'Tng', 8)
     e1_typestate.run_type(facts, rep, specs.COB, 'Cob', 15)
+    e12_pairing.check_adjacency(facts, rep)
+    e8_formulas.check_cob_formulas(facts, rep)
+    e8_formulas.check_elimination(facts, rep)
+    e9_relations.run(facts, rep, parts=('R1', 'R4', 'R6'))
+    summ = e5_locks.Summaries(facts)
+    e5_locks.check_guards(facts, rep, summ, in_kh, 'tng_complex', 1)
     rep.callsites += sum(len(facts.bodies[k].calls()) for k in rep.functions if k in facts.bodies)
